@@ -157,8 +157,9 @@ def history(r, max_reqs=4, kinds=None):
         else:  # part of the body now, the rest together with the next request after the response was seen
             cut = r.randrange(1, len(q.wire_body))
             segs = split_points(r, first, head_mode)
-            segs[-1] = segs[-1] + q.wire_body[:cut] if r.random() < 0.5 else segs[-1]
-            if not segs[-1].endswith(q.wire_body[:cut]):
+            if r.random() < 0.5:
+                segs[-1] = segs[-1] + q.wire_body[:cut]
+            else:
                 segs.append(q.wire_body[:cut])
             carry = q.wire_body[cut:]
             if q.framing == "chunked" and ec_idx is None:
